@@ -213,10 +213,10 @@ func (e *c16Env) check(run *vf.Run, ws []c16Write, w c16Write, label string) boo
 	ok := true
 	seen := map[string]bool{}
 	for _, m := range gmodel.Diff(e.w.Observe(u), obs) {
-		if seen[m.Comp] {
+		if seen[m.Comp+"|"+listDirection(m.Want, m.Got)] {
 			continue
 		}
-		seen[m.Comp] = true
+		seen[m.Comp+"|"+listDirection(m.Want, m.Got)] = true
 		ok = false
 		acc := "accepted"
 		if err != nil {
@@ -409,13 +409,13 @@ func C16(tier string) int {
 							}
 							seen := map[string]bool{}
 							for _, m := range gmodel.Diff(env.w.Observe(u), obs) {
-								if seen[m.Comp] {
+								if seen[m.Comp+"|"+listDirection(m.Want, m.Got)] {
 									continue
 								}
 								if (m.Comp == "label-scan" || m.Comp == "vlabels" || m.Comp == "elabels") && listDirection(m.Want, m.Got) == "extra" {
 									continue // the label index never shrinks (stale EXTRA entries): C03's known finding, not charged here; a MISSING entry is
 								}
-								seen[m.Comp] = true
+								seen[m.Comp+"|"+listDirection(m.Want, m.Got)] = true
 								run.Report(vf.Violation{Sig: fmt.Sprintf("%s|%s|delete-of-%s-with-%s-present|%s|%s", pos, via, atomName(a), atomName(b), m.Comp, listDirection(m.Want, m.Got)),
 									Detail: fmt.Sprintf("wrote %s and %s at %s, then %s: %s %s expected %s, read back %s", atomName(a), atomName(b), pos, op, m.Comp, m.Item, m.Want, m.Got),
 									Replay: map[string]any{"via": via, "position": pos, "atoms": []string{a, b}, "delete": op.String()}})
